@@ -232,13 +232,14 @@ pub fn subset_module(rng: &mut Rng, body_ops: &[SInst]) -> Vec<SInst> {
     let mut s = subset_prelude(rng);
     let mut v = std::mem::take(&mut s.insts);
     let mut n = s.next;
-    let nf = 1 + rng.below(2);
+    scale_reset_mod();
+    let nf = 1 + rng.count_mod(2);
     for fi in 0..nf {
         let fid = n; n += 1;
         // the OpFunction's result type and the return type of its function type are sometimes different ids
         let (rt_f, ty_f) = match rng.below(4) { 0 => (s.t_void2, s.t_fn), 1 => (s.t_i32, s.t_fn_u), _ => (s.t_void, s.t_fn) };
         v.push(i(54, Some(rt_f), Some(fid), vec![SOp::one("FunctionControl", *rng.pick(&[0u32, 1, 2, 4, 8, 5, 12, 13, 15, 6, 9, 0x10000, 0x1000c])), idr(ty_f)]));
-        let nb = 1 + rng.below(3);
+        let nb = 1 + rng.count_mod(3);
         let mut labels: Vec<u32> = vec![];
         let mut values_f: Vec<u32> = vec![];
         let mut pending_f: Vec<u32> = vec![];   // ids some phi already names, to be defined by a later instruction
@@ -276,7 +277,7 @@ pub fn subset_module(rng: &mut Rng, body_ops: &[SInst]) -> Vec<SInst> {
             // OpLine (skipped by the lifter) in front of the phis / between instructions
             let line_first = b > 0 && rng.chance(1, 3);
             if line_first { let at = v.iter().rposition(|x| x.op == 248).unwrap() + 1; v.insert(at, i(8, None, None, vec![idr(900), lit(1), lit(2)])); }
-            let n_f = rng.below(4) + if b + 1 == nb { pending_f.len() } else { 0 };
+            let n_f = rng.count_mod(4) + if b + 1 == nb { pending_f.len() } else { 0 };
             for _ in 0..n_f {
                 let r = match pending_f.pop() { Some(r) => r, None => { n += 1; n - 1 } };
                 let a = if values_f.is_empty() || rng.chance(1, 2) { s.c_f } else { *rng.pick(&values_f) };
